@@ -28,6 +28,10 @@ CLAIMED = {
             "bounded-exhaustive enumeration of file contents x newline convention x encoding declaration x edit, executed on the real File/ChangeContents/Rename code with independently computed expected bytes",
             "All texts of <=2 (3) lines over 9 character-class atoms x {LF,CRLF,CR} x final newline x 10 encoding declarations x 3 cookie forms x 6 cookie placements are written as raw bytes; through rope each is written back unchanged, edited line by line, renamed, undone, re-edited after its newline convention changed behind rope's back, and written to a new file; every resulting byte string is compared with bytes computed from the line list.",
             "expected bytes computed independently of rope's codec/newline code; mixed newlines and unencodable contents excluded by the property", "3/C16"),
+    "C13": ("model_checking",
+            "explicit-state exploration of mutation/external-edit/query histories to depth 3 (4-5 thorough) on one long-lived real Project, differential against a brand-new Project after every sequence",
+            "Every enabled sequence over 25 events (13 mutations through rope, 6 changes behind rope's back + validate(), 6 cache-warming queries) is replayed on a long-lived real Project with an observing AutoImport index; then files, python files, find_module, per-module source/names/definition locations/inferred types and attribute sets, find_occurrences and the AutoImport index are compared with a brand-new Project (fresh index) on the same directory.",
+            "the fresh project is the reference; time stamps owned by a logical clock; AutoImport indexes filled with update_resource (no process pool); bounded depth and alphabet", "3/C13"),
 }
 
 PENDING_REASON = "check not built yet in this session (see DESIGN.md section 8 build order); nothing is claimed for it"
